@@ -2051,6 +2051,452 @@ Proof.
   apply load_presentation_err in El as [[-> _]|[[-> _]|[-> _]]]; auto.
 Qed.
 
+(** ---- C16: the content type lookup ignores case, exactly as far as the code does ---- *)
+
+Definition low_pairs (l : list (str * str)) : list (str * str) :=
+  map (fun kv => (lower (fst kv), snd kv)) l.
+
+Lemma ct_lookup_case_decl ds os ds' os' x :
+  low_pairs ds = low_pairs ds' -> low_pairs os = low_pairs os' ->
+  ct_lookup (ds, os) x = ct_lookup (ds', os') x.
+Proof.
+  intros Hd Ho. unfold ct_lookup, lower_keys. cbn [fst snd].
+  change (map (fun kv : str * str => (lower (fst kv), snd kv)) os) with (low_pairs os).
+  change (map (fun kv : str * str => (lower (fst kv), snd kv)) os') with (low_pairs os').
+  change (map (fun kv : str * str => (lower (fst kv), snd kv)) ds) with (low_pairs ds).
+  change (map (fun kv : str * str => (lower (fst kv), snd kv)) ds') with (low_pairs ds').
+  rewrite Hd, Ho. reflexivity.
+Qed.
+
+Lemma lower_c_eqb c d : (d = 47 \/ d = 46)%N -> N.eqb (lower_c c) d = N.eqb c d.
+Proof.
+  intros Hd. unfold lower_c. destruct ((65 <=? c)%N && (c <=? 90)%N) eqn:E; auto.
+  apply andb_true_iff in E as [E1 E2]. apply N.leb_le in E1, E2.
+  destruct (N.eqb_spec (c + 32) d), (N.eqb_spec c d); auto; lia.
+Qed.
+
+Lemma drop_while_map {A} (f : A -> A) (P : A -> bool) l :
+  (forall x, P (f x) = P x) -> drop_while P (map f l) = map f (drop_while P l).
+Proof. intros H. induction l as [|x l IH]; simpl; auto. rewrite H. destruct (P x); auto. Qed.
+
+Lemma take_while_map {A} (f : A -> A) (P : A -> bool) l :
+  (forall x, P (f x) = P x) -> take_while P (map f l) = map f (take_while P l).
+Proof. intros H. induction l as [|x l IH]; simpl; auto. rewrite H. destruct (P x); simpl; auto. f_equal; auto. Qed.
+
+Lemma rsplit_at_lower d s : (d = 47 \/ d = 46)%N ->
+  rsplit_at d (lower s) = (lower (fst (rsplit_at d s)), lower (snd (rsplit_at d s))).
+Proof.
+  intros Hd. unfold rsplit_at, lower. cbn [fst snd]. rewrite <- map_rev.
+  rewrite drop_while_map, take_while_map by (intros; rewrite lower_c_eqb; auto).
+  rewrite !map_rev. reflexivity.
+Qed.
+
+Lemma existsb_lower (P : N -> bool) s : (forall x, P (lower_c x) = P x) -> existsb P (lower s) = existsb P s.
+Proof. intros H. unfold lower. induction s as [|x s IH]; simpl; auto. rewrite H, IH. auto. Qed.
+
+Lemma removelast_map {A B} (f : A -> B) l : removelast (map f l) = map f (removelast l).
+Proof. induction l as [|x [|y l] IH]; simpl; auto. simpl in IH. rewrite IH. auto. Qed.
+
+Lemma is_dot_lower x : is_dot (lower_c x) = is_dot x.
+Proof. unfold is_dot. apply lower_c_eqb. auto. Qed.
+
+Lemma splitext_lower p : snd (px_splitext (lower p)) = lower (snd (px_splitext p)).
+Proof.
+  unfold px_splitext. rewrite (rsplit_at_lower c_slash p) by (left; reflexivity).
+  destruct (rsplit_at c_slash p) as [h t]. cbn [fst snd].
+  rewrite existsb_lower by apply is_dot_lower. destruct (existsb is_dot t); [|reflexivity].
+  rewrite (rsplit_at_lower c_dot t) by (right; reflexivity).
+  destruct (rsplit_at c_dot t) as [a b]. cbn [fst snd].
+  unfold lower at 1. rewrite removelast_map. fold (lower (removelast a)).
+  rewrite existsb_lower by (intros; rewrite is_dot_lower; auto).
+  destruct (existsb (fun c0 => negb (is_dot c0)) (removelast a)); reflexivity.
+Qed.
+
+Lemma ext_lower x : ext (lower x) = lower (ext x).
+Proof.
+  unfold ext. rewrite splitext_lower. destruct (snd (px_splitext x)) as [|c r]; [reflexivity|].
+  simpl. rewrite is_dot_lower. destruct (is_dot c); reflexivity.
+Qed.
+
+Lemma ct_lookup_case_name c x y : lower x = lower y -> ct_lookup c x = ct_lookup c y.
+Proof.
+  intros H. unfold ct_lookup. rewrite H.
+  assert (He : lower (ext x) = lower (ext y)) by (rewrite <- !ext_lower, H; reflexivity).
+  rewrite He. reflexivity.
+Qed.
+
+(** ---- C16: regularise ---- *)
+
+Lemma dfs_nodup g fuel : forall vis src, NoDup vis -> ~ In src vis -> NoDup (dfs g fuel vis src).
+Proof.
+  induction fuel as [|f IH]; intros vis src Hnd Hn; simpl; auto.
+  assert (H : forall ys acc, NoDup acc -> NoDup (fold_left (step (dfs g f)) ys acc)).
+  { induction ys as [|y ys IHy]; intros acc Ha; simpl; auto. apply IHy. unfold step.
+    destruct (mem_str y acc) eqn:E; auto. apply IH; auto. apply mem_str_nIn; auto. }
+  apply H. constructor; auto.
+Qed.
+
+Lemma part_names_NoDup {blob} (E : env blob) p : NoDup (part_names E p).
+Proof.
+  unfold part_names, xml_rels_names. apply NoDup_filter, NoDup_rev, dfs_nodup; [constructor|auto].
+Qed.
+
+Lemma part_names_has {blob} (E : env blob) p n : In n (part_names E p) -> n <> root /\ exists b, lookup n p = Some b.
+Proof.
+  unfold part_names. intros H. apply filter_In in H as [_ H]. apply andb_true_iff in H as [H1 H2].
+  apply negb_true_iff, str_eqb_neq in H1. split; auto. unfold has in H2. destruct (lookup n p); [eauto|discriminate].
+Qed.
+
+Lemma valid_rels_ok src present rs l : valid_rels src present rs = Ok l ->
+  l = map (conv_rel src) (filter (kept_rel src present) rs).
+Proof.
+  revert l. induction rs as [|r rs IH]; simpl; intros l H; [inversion H; auto|].
+  unfold kept_rel at 1, conv_rel at 1, is_ext. destruct (r_mode r) eqn:Em.
+  - destruct (present (resolve (baseURI src) (r_target r))) eqn:Ep.
+    + destruct (valid_rels src present rs) as [l0|]; simpl in H; [|discriminate]. inversion H; subst.
+      simpl. rewrite Em. f_equal. apply IH; auto.
+    + apply IH; auto.
+  - destruct (valid_rels src present rs) as [l0|]; simpl in H; [|discriminate]. inversion H; subst.
+    simpl. rewrite Em. f_equal. apply IH; auto.
+  - destruct (present (resolve (baseURI src) (r_target r))) eqn:Ep; [|discriminate].
+    destruct (valid_rels src present rs) as [l0|]; simpl in H; [|discriminate]. inversion H; subst.
+    simpl. rewrite Em. f_equal. apply IH; auto.
+Qed.
+
+Lemma mapM_ok_eq {A B} (f : A -> res B) (h : A -> B) l ys :
+  mapM f l = Ok ys -> (forall x y, In x l -> f x = Ok y -> y = h x) -> ys = map h l.
+Proof.
+  revert ys. induction l as [|x l IH]; simpl; intros ys H Hh; [inversion H; auto|].
+  destruct (f x) as [y0|] eqn:Ef; simpl in H; [|discriminate].
+  destruct (mapM f l) as [ys0|]; simpl in H; [|discriminate]. inversion H; subst.
+  rewrite (Hh x y0) by auto. f_equal. apply IH; auto.
+Qed.
+
+(** relationships the loader keeps for a source *)
+Definition kept_lrels {blob} (E : env blob) (p : phys blob) (n : str) : list lrel :=
+  map (conv_rel n) (filter (kept_rel n (fun t => mem_str t (part_names E p))) (rels_or_nil E p n)).
+
+Definition gen_part {blob} (E : env blob) (p : phys blob) (c : cts) (n : str) : part blob :=
+  mkPart n (ct_or c n) (blob_or E p c n) (lrels_dict (kept_lrels E p n)).
+
+Lemma load_ok_explicit {blob} (E : env blob) p k : load E p = Ok k ->
+  exists cb c, lookup ct_uri p = Some cb /\ dec_ct E cb = Some c /\
+    k_rels k = lrels_dict (kept_lrels E p root) /\
+    k_parts k = map (gen_part E p c) (part_names E p).
+Proof.
+  unfold load. destruct (lookup ct_uri p) as [cb|] eqn:Ecb; [|discriminate].
+  destruct (dec_ct E cb) as [c|] eqn:Ec; [|discriminate]. destruct (negb _); [discriminate|].
+  destruct (mapM (load_part E p c) (part_names E p)) as [protos|] eqn:E1; cbn [bind]; [|discriminate].
+  match goal with |- context [mapM ?f protos] => destruct (mapM f protos) as [parts|] eqn:E2 end; cbn [bind]; [|discriminate].
+  destruct (load_rels E p (fun n => mem_str n (part_names E p)) root) as [krels|] eqn:E3; cbn [bind]; [|discriminate].
+  intros H; inversion H; subst. exists cb, c. split; auto. split; auto. cbn [k_rels k_parts]. split.
+  - unfold load_rels in E3.
+    destruct (valid_rels root (fun n => mem_str n (part_names E p)) (rels_or_nil E p root)) as [l|] eqn:Ev; simpl in E3; [|discriminate].
+    inversion E3; subst. rewrite (valid_rels_ok _ _ _ _ Ev). reflexivity.
+  - assert (Hp : protos = map (fun n => (n, ct_or c n, blob_or E p c n)) (part_names E p)).
+    { apply (mapM_ok_eq _ _ _ _ E1). intros x y _ Hf. unfold load_part in Hf. unfold blob_or, ct_or.
+      destruct (ct_lookup c x) as [ct|]; simpl in Hf; [|discriminate].
+      destruct (lookup x p) as [b|]; [|discriminate].
+      destruct (is_xml_ct E ct) eqn:Ex; [destruct (reser E b) eqn:Er|]; inversion Hf; subst; cbn;
+        rewrite ?Ex, ?Er; reflexivity. }
+    subst protos. rewrite (mapM_ok_eq _ (fun pr : str * str * blob => let '(n, ct, b) := pr in
+                              mkPart n ct b (lrels_dict (kept_lrels E p n))) _ _ E2).
+    + rewrite map_map. reflexivity.
+    + intros [[n ct] b] y _ Hf. unfold load_rels in Hf.
+      destruct (valid_rels n (fun n0 => mem_str n0 (part_names E p)) (rels_or_nil E p n)) as [l|] eqn:Ev; simpl in Hf; [|discriminate].
+      inversion Hf; subst. rewrite (valid_rels_ok _ _ _ _ Ev). reflexivity.
+Qed.
+
+Lemma flat_map_ext_in {A B} (f g : A -> list B) l : (forall x, In x l -> f x = g x) -> flat_map f l = flat_map g l.
+Proof. induction l as [|a l IH]; simpl; auto. intros H. rewrite (H a), IH; auto. Qed.
+
+Lemma find_map_name {blob} (h : str -> part blob) n l : (forall x, p_name (h x) = x) ->
+  find (fun pt : part blob => str_eqb (p_name pt) n) (map h l) = if mem_str n l then Some (h n) else None.
+Proof.
+  intros Hh. induction l as [|x l IH]; simpl; auto. unfold mem_str in *. simpl.
+  rewrite Hh, (str_eqb_sym n x). destruct (str_eqb_spec x n) as [->|Hn]; simpl; auto.
+Qed.
+
+Section Reg.
+Context {blob : Type}.
+Variable E : env blob.
+Variable p : phys blob.
+Variable k : pkg blob.
+Hypothesis Hcodec : codec_ok E.
+Hypothesis Hnames : forall n, In n (part_names E p) -> part_name n.
+Hypothesis Hwfq : wf E (regularise E p).
+Variable cb : blob.
+Variable c : cts.
+Hypothesis Hcb : lookup ct_uri p = Some cb.
+Hypothesis Hc : dec_ct E cb = Some c.
+Hypothesis Hkr : k_rels k = lrels_dict (kept_lrels E p root).
+Hypothesis Hkp : k_parts k = map (gen_part E p c) (part_names E p).
+
+Notation q := (regularise E p).
+Notation pn := (part_names E p).
+Notation present := (fun t => mem_str t (part_names E p)).
+
+Definition kfilter (n : str) : list rel := filter (kept_rel n present) (rels_or_nil E p n).
+Definition bget (n : str) : blob := match lookup n p with Some b => b | None => enc_rels E [] end.
+
+Lemma q_eq : q = (ct_uri, cb) :: (rels_item_name root, enc_rels E (kfilter root))
+                 :: flat_map (fun n => [(n, bget n); (rels_item_name n, enc_rels E (kfilter n))]) pn.
+Proof.
+  unfold regularise. rewrite Hcb. f_equal. f_equal. apply flat_map_ext_in. intros n Hn.
+  destruct (part_names_has E p n Hn) as (_ & b & Hb). unfold bget. rewrite Hb. reflexivity.
+Qed.
+
+Lemma q_names : map fst q = ct_uri :: rels_item_name root :: flat_map (fun n => [n; rels_item_name n]) pn.
+Proof.
+  rewrite q_eq. cbn [map fst]. f_equal. f_equal.
+  assert (H : forall l, map fst (flat_map (fun n => [(n, bget n); (rels_item_name n, enc_rels E (kfilter n))]) l)
+                        = flat_map (fun n => [n; rels_item_name n]) l).
+  { induction l as [|n l IH]; [reflexivity|]. cbn [flat_map map app fst]. rewrite IH. reflexivity. }
+  apply H.
+Qed.
+
+Lemma q_names_NoDup : NoDup (map fst q).
+Proof.
+  rewrite q_names.
+  assert (Hin : forall z, In z (flat_map (fun n => [n; rels_item_name n]) pn) ->
+            exists n, In n pn /\ (z = n \/ z = rels_item_name n)).
+  { intros z Hz. apply in_flat_map in Hz as (n & Hn & [<-|[<-|[]]]); eauto. }
+  constructor; [|constructor].
+  - intros [H|H].
+    + apply ct_uri_not_shaped. rewrite <- H. apply rels_item_root_shaped.
+    + apply Hin in H as (n & Hn & [H|H]).
+      * apply (part_name_ne_ct n); auto.
+      * apply ct_uri_not_shaped. rewrite H. apply rels_item_shaped; auto.
+  - intros H. apply Hin in H as (n & Hn & [H|H]).
+    + apply (part_name_not_shaped n); auto. rewrite <- H. apply rels_item_root_shaped.
+    + symmetry in H. apply rels_item_not_root in H; auto.
+  - apply NoDup_flat_map.
+    + apply part_names_NoDup.
+    + intros n Hn. constructor; [|repeat constructor; simpl; auto].
+      intros [H|[]]. apply (part_name_not_shaped n); auto. rewrite <- H. apply rels_item_shaped; auto.
+    + intros x y z Hx Hy Hne [<-|[<-|[]]] [H|[H|[]]].
+      * congruence.
+      * apply (part_name_not_shaped x); auto. rewrite <- H. apply rels_item_shaped; auto.
+      * apply (part_name_not_shaped y); auto. rewrite H. apply rels_item_shaped; auto.
+      * apply Hne. symmetry. apply rels_item_inj; auto.
+Qed.
+
+Lemma q_lookup_ct : lookup ct_uri q = Some cb.
+Proof. rewrite q_eq. cbn [lookup]. rewrite str_eqb_refl. reflexivity. Qed.
+
+Lemma q_in_part n : In n pn -> In (n, bget n) q.
+Proof.
+  intros Hn. rewrite q_eq. right; right. apply in_flat_map. exists n. split; auto. left; auto.
+Qed.
+
+Lemma q_in_rels n : In n pn -> In (rels_item_name n, enc_rels E (kfilter n)) q.
+Proof.
+  intros Hn. rewrite q_eq. right; right. apply in_flat_map. exists n. split; auto. right; left; auto.
+Qed.
+
+Lemma q_lookup_part n : In n pn -> lookup n q = lookup n p.
+Proof.
+  intros Hn. rewrite (lookup_NoDup_In n (bget n) q q_names_NoDup (q_in_part n Hn)).
+  destruct (part_names_has E p n Hn) as (_ & b & Hb). unfold bget. rewrite Hb. reflexivity.
+Qed.
+
+Lemma q_rels x : (x = root \/ In x pn) -> rels_for E q x = Some (kfilter x).
+Proof.
+  destruct Hcodec as (Hdr & _ & _). intros [->|Hx].
+  - unfold rels_for. rewrite rels_uri_root_ok, q_eq. cbn [lookup].
+    assert (Hne : str_eqb ct_uri (rels_item_name root) = false) by reflexivity.
+    rewrite Hne, str_eqb_refl. apply Hdr.
+  - unfold rels_for. rewrite (rels_uri_part x (Hnames x Hx)).
+    rewrite (lookup_NoDup_In _ _ q q_names_NoDup (q_in_rels x Hx)). apply Hdr.
+Qed.
+
+Lemma q_member n : In n (map fst q) -> part_name n -> In n pn.
+Proof.
+  rewrite q_names. intros [H|[H|H]] Hp.
+  - exfalso. apply (part_name_ne_ct n); auto.
+  - exfalso. apply (part_name_not_shaped n Hp). rewrite <- H. apply rels_item_root_shaped.
+  - apply in_flat_map in H as (m & Hm & [<-|[<-|[]]]); auto.
+    exfalso. apply (part_name_not_shaped _ Hp). apply rels_item_shaped; auto.
+Qed.
+
+Lemma q_parts_in n : In n (part_names E q) -> In n pn.
+Proof.
+  intros H. apply (proj1 (part_names_spec E q Hwfq)) in H as [Hr Hne].
+  apply q_member; [apply (reachable_member E q Hwfq); auto|apply (wf_part_name E q Hwfq); auto].
+Qed.
+
+Lemma q_src x : reachable E q x -> x = root \/ In x pn.
+Proof.
+  intros H. destruct (str_eq_dec x root); auto. right. apply q_parts_in.
+  apply (proj1 (part_names_spec E q Hwfq)); auto.
+Qed.
+
+Lemma q_rels_or_nil x : reachable E q x -> rels_or_nil E q x = kfilter x.
+Proof. intros H. apply (rels_or_nil_eq E q). apply q_rels. apply q_src; auto. Qed.
+
+Lemma kept_ids_NoDup x : reachable E q x -> NoDup (map l_id (kept_lrels E p x)).
+Proof.
+  intros H. destruct (wf_rels E q Hwfq x H) as (rs & Hrs & Hnd & _).
+  rewrite q_rels in Hrs by (apply q_src; auto). inversion Hrs; subst.
+  unfold kept_lrels. rewrite conv_rel_ids. exact Hnd.
+Qed.
+
+Lemma q_ct : exists cb', lookup ct_uri q = Some cb' /\ dec_ct E cb' = Some c.
+Proof. exists cb. split; [apply q_lookup_ct|exact Hc]. Qed.
+
+Lemma q_load : load E q = Ok (spec_pkg E q c).
+Proof.
+  destruct (load_wf E q Hwfq) as (cb' & c' & Hcb' & Hc' & Hl).
+  rewrite q_lookup_ct in Hcb'. inversion Hcb'; subst cb'. rewrite Hc in Hc'. inversion Hc'; subst c'. exact Hl.
+Qed.
+
+Lemma q_k_rels : k_rels (spec_pkg E q c) = k_rels k.
+Proof.
+  simpl. rewrite Hkr, q_rels_or_nil by apply r0. fold (kept_lrels E p root).
+  rewrite lrels_dict_id; auto. apply kept_ids_NoDup. apply r0.
+Qed.
+
+Lemma q_spec_part n : In n (part_names E q) -> spec_part E q c n = gen_part E p c n.
+Proof.
+  intros Hn. pose proof (q_parts_in n Hn) as Hpn.
+  apply (proj1 (part_names_spec E q Hwfq)) in Hn as [Hr Hne].
+  unfold spec_part, gen_part. f_equal.
+  - unfold blob_or. rewrite q_lookup_part by auto. reflexivity.
+  - rewrite q_rels_or_nil by auto. fold (kept_lrels E p n). rewrite lrels_dict_id; auto.
+    apply kept_ids_NoDup; auto.
+Qed.
+
+Lemma find_part_k n : find_part k n = if mem_str n pn then Some (gen_part E p c n) else None.
+Proof. unfold find_part. rewrite Hkp. apply find_map_name. reflexivity. Qed.
+
+Lemma lsuccs_k n : In n (part_names E q) -> lsuccs k n = succs E q n.
+Proof.
+  intros Hn. pose proof (q_parts_in n Hn) as Hpn.
+  apply (proj1 (part_names_spec E q Hwfq)) in Hn as [Hr Hne].
+  unfold lsuccs. rewrite find_part_k, (proj2 (mem_str_In _ _) Hpn). cbn [p_rels gen_part].
+  rewrite lrels_dict_id by (apply kept_ids_NoDup; auto).
+  unfold kept_lrels. rewrite lint_targets_conv. fold (kfilter n).
+  rewrite (succs_rels E q n (kfilter n)); auto. apply q_rels. right; auto.
+Qed.
+
+Lemma start_targets : lint_targets (k_rels k) = succs E q root.
+Proof. rewrite <- q_k_rels. apply (k_rels_targets E q Hwfq). Qed.
+
+Lemma reach_k_q y x : In y (part_names E q) -> reach (lsuccs k) y x ->
+  In x (part_names E q) /\ reachable E q x.
+Proof.
+  intros Hy H. induction H as [|x' z Hr IH Hz].
+  - split; auto. apply (proj1 (part_names_spec E q Hwfq)) in Hy; tauto.
+  - destruct IH as [Hx' Hrx']. rewrite lsuccs_k in Hz by auto.
+    split; [eapply (succs_part_names E q Hwfq); eauto|eapply r1; eauto].
+Qed.
+
+Lemma reach_q_k x : reachable E q x -> x <> root ->
+  exists y, In y (succs E q root) /\ reach (lsuccs k) y x.
+Proof.
+  induction 1 as [|x' y Hr IH Hy]; [congruence|]. intros Hne.
+  destruct (str_eq_dec x' root) as [->|Hn'].
+  - exists y. split; auto. apply r0.
+  - destruct (IH Hn') as (y0 & Hy0 & Hr0). exists y0. split; auto.
+    eapply r1; [exact Hr0|]. rewrite lsuccs_k; auto.
+    apply (proj1 (part_names_spec E q Hwfq)); auto.
+Qed.
+
+Hypothesis Hload : load E p = Ok k.
+
+Lemma lsuccs_closed a b : In b (lsuccs k a) -> In b pn.
+Proof.
+  unfold lsuccs, find_part. destruct (find _ (k_parts k)) as [pt|] eqn:Ef; [|intros []].
+  apply find_some in Ef as [Hpt _]. unfold lint_targets. intros Hb.
+  apply in_map_iff in Hb as (r & <- & Hr). apply filter_In in Hr as [Hr He]. apply negb_true_iff in He.
+  destruct (load_ok_shape E p k Hload) as (_ & _ & H). eapply H; eauto.
+Qed.
+
+Lemma start_closed y : In y (lint_targets (k_rels k)) -> In y pn.
+Proof.
+  unfold lint_targets. intros Hb. apply in_map_iff in Hb as (r & <- & Hr).
+  apply filter_In in Hr as [Hr He]. apply negb_true_iff in He.
+  destruct (load_ok_shape E p k Hload) as (_ & H & _). apply H; auto.
+Qed.
+
+Lemma iter_names_k x : In x (iter_part_names k) <-> In x (iter_part_names (spec_pkg E q c)).
+Proof.
+  rewrite (names_reach E q Hwfq c).
+  unfold iter_part_names, fuel_of. rewrite <- in_rev.
+  destruct (walk_reach (lsuccs k) (fun x => In x pn) pn) with (ys := lint_targets (k_rels k))
+    (fuel := S (length (k_parts k))) as [H1 _].
+  - intros a b _ Hb. eapply lsuccs_closed; eauto.
+  - auto.
+  - apply start_closed.
+  - rewrite Hkp, map_length. lia.
+  - rewrite H1, start_targets. split.
+    + intros (y & Hy & Hr).
+      assert (Hyq : In y (part_names E q)) by (eapply (succs_part_names E q Hwfq); [apply r0|exact Hy]).
+      destruct (reach_k_q y x Hyq Hr) as [Hx Hrx]. split; auto.
+      apply (proj1 (part_names_spec E q Hwfq)) in Hx; tauto.
+    + intros [Hr Hne]. apply reach_q_k; auto.
+Qed.
+
+Lemma iter_parts_k pt : In pt (iter_parts k) <-> In pt (iter_parts (spec_pkg E q c)).
+Proof.
+  rewrite (iter_parts_spec E q Hwfq c). unfold iter_parts. rewrite in_flat_map, in_map_iff. split.
+  - intros (n & Hn & Hpt). rewrite find_part_k in Hpt. destruct (mem_str n pn) eqn:Em; [|destruct Hpt].
+    destruct Hpt as [<-|[]]. exists n. apply iter_names_k in Hn. split; auto.
+    apply q_spec_part. apply (names_reach E q Hwfq c) in Hn. apply (proj1 (part_names_spec E q Hwfq)); auto.
+  - intros (n & <- & Hn). exists n. split; [apply iter_names_k; auto|].
+    assert (Hq : In n (part_names E q)).
+    { apply (names_reach E q Hwfq c) in Hn. apply (proj1 (part_names_spec E q Hwfq)); auto. }
+    rewrite find_part_k, (proj2 (mem_str_In _ _) (q_parts_in n Hq)), (q_spec_part n Hq). left; auto.
+Qed.
+End Reg.
+
+Lemma c16_regularise {blob} (E : env blob) p k :
+  codec_ok E -> load E p = Ok k -> (forall n, In n (part_names E p) -> part_name n) ->
+  wf E (regularise E p) ->
+  exists k', load E (regularise E p) = Ok k' /\ k_rels k' = k_rels k /             (forall pt, In pt (iter_parts k') <-> In pt (iter_parts k)).
+Proof.
+  intros Hcodec Hload Hnames Hwfq.
+  destruct (load_ok_explicit E p k Hload) as (cb & c & Hcb & Hc & Hkr & Hkp).
+  exists (spec_pkg E (regularise E p) c). split; [|split].
+  - apply (q_load E p Hwfq cb c Hcb Hc).
+  - apply (q_k_rels E p k Hcodec Hnames Hwfq cb c Hcb Hc Hkr).
+  - intros pt. symmetry. apply (iter_parts_k E p k Hcodec Hnames Hwfq cb c Hcb Hc Hkr Hkp Hload).
+Qed.
+
+(** with C01 on the regularised package: the parts an irregular package opens with are
+    exactly the names its regularised form reaches, each once *)
+Lemma c16_preserved {blob} (E : env blob) p k :
+  codec_ok E -> load E p = Ok k -> (forall n, In n (part_names E p) -> part_name n) ->
+  wf E (regularise E p) ->
+  (forall x, In x (map p_name (iter_parts k)) <-> (reachable E (regularise E p) x /\ x <> root)) /  (forall r, In r (k_rels k) -> l_ext r = false -> In (l_target r) (map p_name (iter_parts k))) /  (forall pt r, In pt (iter_parts k) -> In r (p_rels pt) -> l_ext r = false ->
+                In (l_target r) (map p_name (iter_parts k))).
+Proof.
+  intros Hcodec Hload Hnames Hwfq.
+  destruct (c16_regularise E p k Hcodec Hload Hnames Hwfq) as (k' & Hl' & Hkr & Hparts).
+  destruct (c01_reach E _ Hwfq) as (k2 & Hl2 & _ & Hreach). rewrite Hl' in Hl2. inversion Hl2; subst k2.
+  assert (Hnm : forall x, In x (map p_name (iter_parts k)) <-> In x (map p_name (iter_parts k'))).
+  { intros x. rewrite !in_map_iff. split; intros (pt & He & Hpt); exists pt; split; auto; apply Hparts; auto. }
+  split; [|split].
+  - intros x. rewrite Hnm. apply Hreach.
+  - intros r Hr He. rewrite Hnm, Hreach. rewrite <- Hkr in Hr.
+    destruct (load_wf E _ Hwfq) as (cb & c & Hcb & Hc & Hl). rewrite Hl' in Hl. inversion Hl; subst k'.
+    assert (Hin : In (l_target r) (lint_targets (k_rels (spec_pkg E (regularise E p) c)))).
+    { unfold lint_targets. apply in_map. apply filter_In. split; auto. rewrite He; auto. }
+    rewrite (k_rels_targets E _ Hwfq c) in Hin.
+    apply (proj1 (part_names_spec E _ Hwfq)). eapply (succs_part_names E _ Hwfq); [apply r0|exact Hin].
+  - intros pt r Hpt Hr He. rewrite Hnm, Hreach. apply Hparts in Hpt.
+    destruct (load_wf E _ Hwfq) as (cb & c & Hcb & Hc & Hl). rewrite Hl' in Hl. inversion Hl; subst k'.
+    rewrite (iter_parts_spec E _ Hwfq c) in Hpt. apply in_map_iff in Hpt as (n & <- & Hn).
+    apply (names_reach E _ Hwfq c) in Hn as [Hrn Hne].
+    assert (Hin : In (l_target r) (lsuccs (spec_pkg E (regularise E p) c) n)).
+    { unfold lsuccs. rewrite (find_part_spec E _ c).
+      rewrite (proj2 (mem_str_In _ _)) by (apply (proj1 (part_names_spec E _ Hwfq)); auto).
+      unfold lint_targets. apply in_map. apply filter_In. split; auto. rewrite He; auto. }
+    rewrite (lsuccs_spec E _ Hwfq c) in Hin.
+    rewrite (proj2 (mem_str_In _ _)) in Hin by (apply (proj1 (part_names_spec E _ Hwfq)); auto).
+    apply (proj1 (part_names_spec E _ Hwfq)). eapply (succs_part_names E _ Hwfq); eauto.
+Qed.
+
 (** ---- the extracted instance and two concrete packages (non-vacuity, refutation) ---- *)
 From V.model Require Import OpcRun.
 From V.gen Require Import GenC01.
